@@ -31,7 +31,10 @@ def configs(prop, tier, seed):
         vs = [VARIANTS[(seed + k) % len(VARIANTS)] for k in (1, 2)]
         plan = [("T1", vs[0], 3, "exact"), ("T2", vs[1], 2, "exact"), ("T2", vs[0], 2, "exact"), ("T1", vs[1], 2, "decimal")]
         if prop in ("C02", "C07"):
-            plan.append(("F1", VARIANTS[(seed + 1) % len(VARIANTS)], 2, "exact"))
+            plan.append(("F1", VARIANTS[(seed + 1) % len(VARIANTS)], 3, "exact"))
+            plan.append(("T3", VARIANTS[2 + seed % 3], 2, "exact"))
+            plan.append(("T1", VARIANTS[(seed + 3) % len(VARIANTS)], 3, "zero"))
+            plan.append(("T1", VARIANTS[(seed + 4) % len(VARIANTS)], 3, "zero2"))
     else:
         plan = []
         for v in VARIANTS:
@@ -41,6 +44,11 @@ def configs(prop, tier, seed):
             plan.append(("T2", v, 3, "decimal"))
         plan.append(("T3", VARIANTS[1], 3, "exact"))
         plan.append(("T3", VARIANTS[2], 3, "exact"))
+        plan.append(("T3", VARIANTS[4], 3, "exact"))
+        for v in VARIANTS[:4]:
+            plan.append(("T1", v, 4, "zero"))
+            plan.append(("T1", v, 3, "zero2"))
+        plan.append(("T2", VARIANTS[0], 3, "zero"))
         if prop in ("C02", "C07"):
             for v in VARIANTS[:4]:
                 plan.append(("F1", v, 3, "exact"))
@@ -48,6 +56,15 @@ def configs(prop, tier, seed):
             plan.append(("F1", VARIANTS[1], 3, "decimal"))
     for shape, (vn, v), depth, al in plan:
         spec = dict(v, shape=shape, alpha=al, capital=64.0, ndates=4)
+        if al == "zero":
+            # a price that touches exactly zero while positions may be open, then recovers
+            spec["alpha"] = "exact"
+            spec["prices"] = {"a": [4.0, 0.0, 2.0, 0.0], "b": [1.0, 2.0, 0.0, 1.0]}
+        if al == "zero2":
+            # start from a non-initial state: a position is open when the price sits at zero twice
+            spec["alpha"] = "exact"
+            spec["prices"] = {"a": [4.0, 0.0, 0.0, 2.0], "b": [1.0, 2.0, 0.0, 1.0]}
+            spec["preops"] = [["transact", [], "a", 3.0], ["next"]]
         if shape in ("F1", "F2"):
             spec["mult"] = {"c": 2} if v["mult"] else {}
         if shape == "T2":
